@@ -73,7 +73,7 @@ func codedNonZero(err error) bool {
 // HarnessC04ConnectStreamCut: a valid Connect streaming response is cut at
 // every offset with every terminal condition.
 //
-//verif:harness property=C04 stubs=json
+//verif:harness property=C04 stubs=json,wire
 func HarnessC04ConnectStreamCut() {
 	msgs := c04Messages()
 	body, _ := c04Body(0, msgs)
